@@ -760,6 +760,16 @@ var natives = map[string]extFn{
 	"os/user.Current": func(e *Engine, _ *frame, fn *ssa.Function, a []value) value {
 		return tuple{(*value)(nil), mkError("user: Current not implemented in the model")}
 	},
+	"regexp.Compile": func(e *Engine, _ *frame, _ *ssa.Function, a []value) value {
+		s := e.needStr(a[0], "regexp.Compile")
+		re, err := regexp.Compile(s)
+		if err != nil {
+			return tuple{(*value)(nil), mkError(err.Error())}
+		}
+		p := new(value)
+		*p = &native{obj: re, desc: "regexp"}
+		return tuple{p, iface{}}
+	},
 	"regexp.MustCompile": func(e *Engine, _ *frame, _ *ssa.Function, a []value) value {
 		s := e.needStr(a[0], "regexp.MustCompile")
 		re, err := regexp.Compile(s)
